@@ -15,7 +15,7 @@
 (***************************************************************************)
 EXTENDS Integers, Sequences, FiniteSets, TLC
 
-CONSTANTS Scenarios  \* the twin runs to monitor: records [ne, nd, lineage, held, ordered]
+CONSTANTS Scenarios  \* the twin runs to monitor: records [ne, nd, lineage, held, ordered, sink]
 
 VARIABLES sc,        \* the scenario being monitored (fixed after Init)
           delivered, consumed, fired,
@@ -27,6 +27,8 @@ ND == sc.nd            \* number of expected deliveries
 Lineage == sc.lineage  \* [1..ND -> SUBSET (1..NE)]
 Held == sc.held        \* SUBSET (1..NE)
 Ordered == sc.ordered  \* the pipeline guarantees delivery order (every lossless pipeline does)
+SinkOf == sc.sink      \* [1..ND -> sink]: which consumer the k-th expected delivery goes to (several consumers side by side:
+                       \* each one sees its own values in order; how the consumers' deliveries interleave is the schedule's business)
 
 Init == sc \in Scenarios /\ delivered = <<>> /\ consumed = {} /\ fired = <<>> /\ failed = {}
 
@@ -49,7 +51,9 @@ Range(s) == {s[i] : i \in 1 .. Len(s)}
 OnlyExpected == \A i \in 1 .. Len(delivered) : delivered[i] \in 1 .. ND
 NoDuplicate == \A i, j \in 1 .. Len(delivered) : i # j => delivered[i] # delivered[j]
 \* (relative order; that nothing is missing is Complete, checked at the end)
-InOrder == Ordered => \A i, j \in 1 .. Len(delivered) : i < j => delivered[i] < delivered[j]
+InOrder == Ordered => \A i, j \in 1 .. Len(delivered) :
+                          (i < j /\ delivered[i] \in 1 .. ND /\ delivered[j] \in 1 .. ND /\ SinkOf[delivered[i]] = SinkOf[delivered[j]])
+                          => delivered[i] < delivered[j]
 \* C04: no completion callback while anything derived from the element is undelivered or still being handled
 CbSafe == \A i \in 1 .. Len(fired) : \A k \in 1 .. ND : fired[i] \in Lineage[k] => k \in consumed
 \* C04: never for an element whose processing raised
